@@ -4,47 +4,55 @@
 
    Vocabulary (OutBufDefs.v / OutBufSpec.v / OutBufProofs.v):
      run s ops = Ok (s', outs)   the model of term.c executed on a history; outs lists, per
-                                 operation, the chunks handed to the output function or
-                                 written to the descriptor; [Fault] = a request that reads
-                                 outside the caller's string, [OutOfFuel] = loop fuel ran out;
-     stream ops                  the unbuffered stream: the requested bytes concatenated;
-     sized_when_drained s ops    the buffer is resized only while nothing is pending ("any
-                                 buffer size fixed while output is pending");
+                                 operation, the chunks delivered, each tagged with the sink that
+                                 received it (SFunc = the output function, SFd = the
+                                 descriptor); [Fault] = a request that reads outside the
+                                 caller's string, [OutOfFuel] = loop fuel ran out;
+     active s                    the sink output goes to: the function if one is set, else the
+                                 descriptor, else none (a terminal may have both);
+     to_sink k d                 the bytes of the chunks of d that went to sink k;
+     stream_to k func fd ops     the unbuffered stream of sink k: the bytes of the requests made
+                                 while k is the active sink, concatenated;
+     pend_to k s                 what is pending, if k is the active sink (else nothing);
+     config_when_drained s ops   buffer size and active sink change only while nothing is
+                                 pending ("fixed while output is pending");
      inv s                       0 <= cap, cap = 0 -> nothing pending, cap > 0 -> pending < cap;
-     chunk_ok cap c              0 < |c| <= cap. *)
+     chunk_ok cap c              0 < |c| <= cap;   tagged a d: every chunk of d went to a. *)
 From Coq Require Import ZArith List Bool.
 From Tickit Require Import OutBufDefs OutBufSpec OutBufProofs.
 Import ListNotations.
 Local Open Scope Z_scope.
 
-(* nothing lost, duplicated or reordered: for every buffer size and every history,
-   delivered chunks followed by what is still pending are exactly the unbuffered stream *)
-Theorem C11_stream : forall ops s s' outs, inv s -> has_sink s = true ->
-  sized_when_drained s ops -> run s ops = Ok (s', outs) ->
-  exists bs, stream ops = Some bs /\ concat (concat outs) ++ pending s' = pending s ++ bs /\ inv s'.
+(* nothing lost, duplicated, reordered or sent to the other sink: for every buffer size,
+   every sink configuration and every history, what each sink was given, followed by what
+   is still pending for it, is exactly that sink's unbuffered stream *)
+Theorem C11_stream : forall ops s s' outs, inv s ->
+  config_when_drained s ops -> run s ops = Ok (s', outs) ->
+  inv s' /\ forall k, exists bs, stream_to k (has_func s) (has_fd s) ops = Some bs /\
+    to_sink k (concat outs) ++ pend_to k s' = pend_to k s ++ bs.
 Proof. exact stream_run. Qed.
 Print Assumptions C11_stream.
 
-(* ... and identical to what the same history delivers without any buffer *)
+(* ... and identical, per sink, to what the same history delivers without any buffer *)
 Theorem C11_transparent : forall ops func fd s' outs,
-  func || fd = true -> sized_when_drained (init func fd) ops ->
+  config_when_drained (init func fd) ops ->
   run (init func fd) ops = Ok (s', outs) ->
   exists s0 outs0,
     run (init func fd) (unbuffered ops) = Ok (s0, outs0) /\ pending s0 = [] /\
-    concat (concat outs) ++ pending s' = concat (concat outs0) /\
-    stream ops = Some (concat (concat outs0)).
+    forall k, to_sink k (concat outs) ++ pend_to k s' = to_sink k (concat outs0) /\
+              stream_to k func fd ops = Some (to_sink k (concat outs0)).
 Proof. exact transparent. Qed.
 Print Assumptions C11_transparent.
 
-(* resizing first or directly after a flush is enough for the hypothesis above *)
-Theorem C11_resize_after_flush : forall ops s dr, inv s ->
-  (dr = true -> pending s = []) -> resize_after_flush dr ops = true -> sized_when_drained s ops.
-Proof. exact resize_after_flush_sound. Qed.
-Print Assumptions C11_resize_after_flush.
+(* reconfiguring first or directly after a flush is enough for the hypothesis above *)
+Theorem C11_config_after_flush : forall ops s dr, inv s ->
+  (dr = true -> pending s = []) -> config_after_flush dr ops = true -> config_when_drained s ops.
+Proof. exact config_after_flush_sound. Qed.
+Print Assumptions C11_config_after_flush.
 
-(* no delivered chunk is larger than the buffer (nor empty) *)
+(* no delivered chunk is larger than the buffer (nor empty), and it goes to the active sink *)
 Theorem C11_chunk_bound : forall s o s' d, inv s -> step s o = Ok (s', d) -> 0 < cap s ->
-  Forall (chunk_ok (cap s)) d.
+  Forall (chunk_ok (cap s)) d /\ tagged (active s) d.
 Proof. exact chunk_bound. Qed.
 Print Assumptions C11_chunk_bound.
 
@@ -53,9 +61,9 @@ Theorem C11_chunk_bound_run : forall ops s s' outs, inv s -> no_resize ops -> 0 
 Proof. exact chunk_bound_run. Qed.
 Print Assumptions C11_chunk_bound_run.
 
-(* after a flush nothing remains pending, and what was pending is what was delivered *)
+(* after a flush nothing remains pending; what was pending went to the active sink *)
 Theorem C11_flush_drains : forall s s' d, step s OFlush = Ok (s', d) ->
-  pending s' = [] /\ (has_sink s = true -> concat d = pending s).
+  pending s' = [] /\ tagged (active s) d /\ forall k, to_sink k d = pend_to k s.
 Proof. exact flush_drains. Qed.
 Print Assumptions C11_flush_drains.
 
@@ -74,27 +82,36 @@ Proof. exact loop_fuel_bound. Qed.
 Print Assumptions C11_loop_fuel.
 
 (* the oracle: the model's own runs pass the checker, and whatever passes the checker
-   (without a resize over outstanding bytes) delivered the unbuffered stream *)
+   (without forfeit) delivered to every sink that sink's unbuffered stream *)
 Theorem C11_checker_accepts_model : forall ops func fd s' outs,
-  run (init func fd) ops = Ok (s', outs) -> check (func || fd) ops outs = true.
+  run (init func fd) ops = Ok (s', outs) -> check func fd ops outs = true.
 Proof. exact checker_accepts_model. Qed.
 Print Assumptions C11_checker_accepts_model.
 
 Theorem C11_checker_sound : forall ops outs k k', check_from k ops outs = Some k' ->
   k_forfeit k' = false ->
-  exists bs, stream ops = Some bs /\ k_outst k ++ bs = concat (concat outs) ++ k_outst k'.
+  forall snk, exists bs, stream_to snk (k_func k) (k_fd k) ops = Some bs /\
+    outst_to snk k ++ bs = to_sink snk (concat outs) ++ outst_to snk k'.
 Proof. exact checker_sound. Qed.
 Print Assumptions C11_checker_sound.
 
-(* non-vacuity: a buffer of 3, writes of 2 (NUL-terminated, len 0) and 5 bytes that
-   straddle the buffer end twice, an empty formatted write, a flush; the checker accepts
-   the run and rejects the same run with the last chunk dropped *)
+(* non-vacuity: function AND descriptor set, a buffer of 3, writes of 2 (NUL-terminated,
+   len 0) and 5 bytes that straddle the buffer end twice, an empty formatted write, a flush;
+   then the function is removed while nothing is pending and the descriptor takes over.  The
+   checker accepts the run, rejects it with the last function chunk dropped, and rejects it
+   when the first part's chunks go to the descriptor instead of the function. *)
 Example C11_nonvacuous :
-  let ops := [OSetBuf 3; OWrite [97; 98; 0] 0; OWrite [99; 100; 101; 102; 103] 5; OWritef []; OFlush] in
-  run (init true false) ops =
-    Ok (mkOB 3 [] true false, [[]; []; [[97; 98; 99]; [100; 101; 102]]; []; [[103]]]) /\
-  stream ops = Some [97; 98; 99; 100; 101; 102; 103] /\
-  sized_when_drained (init true false) ops /\
-  check true ops [[]; []; [[97; 98; 99]; [100; 101; 102]]; []; [[103]]] = true /\
-  check true ops [[]; []; [[97; 98; 99]; [100; 101; 102]]; []; []] = false.
+  let ops := [OSetBuf 3; OWrite [97; 98; 0] 0; OWrite [99; 100; 101; 102; 103] 5; OWritef []; OFlush;
+              OSetFunc false; OWrite [104; 105] 2; OFlush] in
+  let good := [[]; []; [(SFunc, [97; 98; 99]); (SFunc, [100; 101; 102])]; []; [(SFunc, [103])];
+               []; []; [(SFd, [104; 105])]] in
+  run (init true true) ops = Ok (mkOB 3 [] false true, good) /\
+  stream_to SFunc true true ops = Some [97; 98; 99; 100; 101; 102; 103] /\
+  stream_to SFd true true ops = Some [104; 105] /\
+  config_when_drained (init true true) ops /\
+  check true true ops good = true /\
+  check true true ops [[]; []; [(SFunc, [97; 98; 99]); (SFunc, [100; 101; 102])]; []; [];
+                       []; []; [(SFd, [104; 105])]] = false /\
+  check true true ops [[]; []; [(SFd, [97; 98; 99]); (SFd, [100; 101; 102])]; []; [(SFd, [103])];
+                       []; []; [(SFd, [104; 105])]] = false.
 Proof. exact OutBufProofs.nonvacuous. Qed.
